@@ -1468,11 +1468,29 @@ func c01skelCallsIn(n ast.Node) string {
 	return out
 }
 
+// c01outsideFragment: conditions that guard code for constructs the statement model does not cover (break/continue
+// bookkeeping, function/lexical declarations, per-iteration bindings, try / for-in/of unwinding in `return`, class
+// constructors). Those sub-trees are not part of the pinned skeleton: an edit there does not concern the model.
+func c01outsideFragment(cond string) bool {
+	if cond == "ok" || strings.HasPrefix(cond, "ok&&") {
+		return true // result of a type assertion on *ast.FunctionDeclaration / *ast.BranchStatement
+	}
+	for _, m := range []string{"enterIterBlock", "funcDerivedCtor", "funcClsInit", "leave==nil", "bs!=nil", "blk!=nil", "!c.scope.strict", "b!=nil"} {
+		if strings.Contains(cond, m) {
+			return true
+		}
+	}
+	return false
+}
+
 func c01skel(list []ast.Stmt) string {
 	out := ""
 	for _, st := range list {
 		switch x := st.(type) {
 		case *ast.IfStmt:
+			if c01outsideFragment(c01exprStr(x.Cond)) {
+				continue
+			}
 			body := c01skel(x.Body.List)
 			els := ""
 			if x.Else != nil {
@@ -1487,6 +1505,9 @@ func c01skel(list []ast.Stmt) string {
 		case *ast.BlockStmt:
 			out += c01skel(x.List)
 		case *ast.ForStmt:
+			if x.Cond != nil && c01outsideFragment(c01exprStr(x.Cond)) {
+				continue
+			}
 			if b := c01skel(x.Body.List); b != "" {
 				out += "for{" + b + "}"
 			}
@@ -1527,6 +1548,9 @@ func c01skel(list []ast.Stmt) string {
 					ls := []string{}
 					for _, e := range cc.List {
 						ls = append(ls, c01exprStr(e))
+					}
+					if j := strings.Join(ls, ","); strings.Contains(j, "LexicalDecl") || strings.Contains(j, "VarDeclList") {
+						continue // for-loop heads with declarations: outside the model
 					}
 					inner += "case(" + strings.Join(ls, ",") + "){" + b + "}"
 				}
